@@ -10,12 +10,13 @@ CONSTANTS
   MaxMin = 1000
   MaxForks = 1000
   MaxTouch = 0
-  AlignedOnly = TRUE
+  AlignedOnly = FALSE
   InFlightReads = TRUE
   CheckProjection = FALSE
 INVARIANT RetainedReadable
 INVARIANT RootCanonical
 INVARIANT PrunedUnreadable
+INVARIANT LayoutPersistent
 CONSTRAINT Progress
 POSTCONDITION TraceAccepted
 CHECK_DEADLOCK FALSE
